@@ -28,6 +28,8 @@ pub enum RTamper {
     EdgePoint(usize),
     /// (R_B only) the valid point [s]Q_A for the given s, s = v mod (N-2) + 1: what an honest responder that drew s would have sent
     ScalarPoint(Hex),
+    /// point #i of sm9util::g1_near_curve_points: off the curve, on a neighbouring equation with one constant changed, abscissa at a representation boundary
+    NearCurve(usize),
 }
 
 #[derive(Serialize, Deserialize, Hash, Debug, Clone)]
@@ -74,6 +76,12 @@ fn tamper(honest: &Pt<Fp>, lib_honest: &Point, t: &Option<RTamper>) -> (Option<P
         Some(RTamper::OffCurve) => {
             let (x, y) = honest.clone().unwrap();
             let q = Some((x, y.add(&y.from_u64_like(1))));
+            (None, lib_g1(&q, &BigUint::one()), true)
+        }
+        Some(RTamper::NearCurve(i)) => {
+            let pts = g1_near_curve_points();
+            let (_, x, y) = &pts[*i % pts.len()];
+            let q = Some((r9::fp(x), r9::fp(y)));
             (None, lib_g1(&q, &BigUint::one()), true)
         }
         Some(RTamper::FlipBit(i)) => {
@@ -226,6 +234,7 @@ fn rt() -> impl Strategy<Value = Option<RTamper>> {
         2 => any::<u64>().prop_map(|s| Some(RTamper::OtherValid(s))),
         1 => Just(Some(RTamper::Negated)),
         1 => Just(Some(RTamper::OffCurve)),
+        1 => (0..4096usize).prop_map(|i| Some(RTamper::NearCurve(i))),
         2 => (0..512u16).prop_map(|i| Some(RTamper::FlipBit(i))),
     ]
 }
@@ -358,6 +367,17 @@ pub fn run(ctx: &Ctx) {
                 v.push(Xc { ke: gen::hex32(&BigUint::from(0x0bad_c0de_1234_5677u64)), ke_rel: 0, ida_len: 5, idb_len: 3, id_seed: 17, same_id: false, klen: 16 + i % 17, ra: Hex(expand_bytes(i as u64 ^ 0xe1, 32)), rb: Hex(expand_bytes(i as u64 ^ 0xe2, 32)),
                     t_ra: if which == 0 { Some(RTamper::EdgePoint(i)) } else { None }, t_rb: if which == 1 { Some(RTamper::EdgePoint(i)) } else { None } });
             }
+        }
+        v
+    }, check);
+
+    let nc_step = ctx.tier.pick(4usize, 1usize);
+    ctx.listed("near_curve_ephemerals", "R_A (resp. R_B) replaced in transit by a point of the G1 near-curve family (off the curve, on a neighbouring equation with one constant changed, boundary abscissas; every 4th in the quick tier): the receiving side must refuse it", move || {
+        let mut v = Vec::new();
+        for i in (0..g1_near_curve_points().len()).step_by(nc_step) {
+            let which = (i / nc_step) % 2;
+            v.push(Xc { ke: gen::hex32(&BigUint::from(0x0bad_c0de_1234_5677u64)), ke_rel: 0, ida_len: 5, idb_len: 3, id_seed: 17, same_id: false, klen: 16, ra: Hex(expand_bytes(i as u64 ^ 0xe3, 32)), rb: Hex(expand_bytes(i as u64 ^ 0xe4, 32)),
+                t_ra: if which == 0 { Some(RTamper::NearCurve(i)) } else { None }, t_rb: if which == 1 { Some(RTamper::NearCurve(i)) } else { None } });
         }
         v
     }, check);
